@@ -31,8 +31,8 @@ def callname(a):
     return a[1].split("::")[-1] if a[0] == "call" else None
 
 
-def rule_merges(ctx):
-    R = "C13/merge-guards"
+def rule_merges(ctx, P="C13"):
+    R = P + "/merge-guards"
     b = ctx.body(R, FN)
     if b is None:
         return
@@ -112,16 +112,45 @@ def rule_merges(ctx):
         # hull: size <- line.end - target.start_address
         v = core(o._rvalue(st["r"], (bi, si), 0))
         okh = v[0] == "bin" and v[1] == "Sub" and line_end(v[2]) and core(v[3])[0] == "field" and core(v[3])[2] == "start_address" and nosite(strip(core(v[3])[1])) == nosite(tgt)
-        ctx.check(okh, "C13/hull", (kind, "size"), b.where(bi, si), "merged size <- line.end - merged.start_address (hull of the merged lines)", "merged size <- %s" % show(v)[:160])
+        ctx.check(okh, P + "/hull", (kind, "size"), b.where(bi, si), "merged size <- line.end - merged.start_address (hull of the merged lines)", "merged size <- %s" % show(v)[:160])
+        # a merge of a NAMED part (same-name, fold) also extends the kernel-reported range of the module: system_mapping_info.end_address <- line.end
+        # in the same straight-line region as the size store (the membership tests of C12/C20 read that range, not start/size)
+        if kind in ("same-name", "fold"):
+            sys_ok = False
+            # the straight-line region around the size store: up through single-predecessor/single-successor links, and down likewise
+            region = [bi]
+            x_ = bi
+            while True:
+                ps = [p_ for p_ in b.preds.get(x_, ()) if not b.blocks[p_]["cleanup"]]
+                if len(ps) != 1 or len(b.succs(ps[0], unwind=False)) != 1:
+                    break
+                x_ = ps[0]
+                region.append(x_)
+            x_ = bi
+            while True:
+                ss = b.succs(x_, unwind=False)
+                if len(ss) != 1 or len([p_ for p_ in b.preds.get(ss[0], ()) if not b.blocks[p_]["cleanup"]]) != 1:
+                    break
+                x_ = ss[0]
+                region.append(x_)
+            for (bj, si2, st2) in [(bj, si2, st2) for bj in region for si2, st2 in enumerate(b.blocks[bj]["stmts"])]:
+                pj = st2.get("p", {}).get("proj", []) if st2["k"] == "assign" else []
+                if len(pj) >= 2 and pj[-1].get("n") == "end_address" and pj[-2].get("n") == "system_mapping_info":
+                    tg2 = strip(root(strip(o.place({"l": st2["p"]["l"], "proj": pj[:-2], "ty": ""}, (bj, si2)))))
+                    v2 = core(o._rvalue(st2["r"], (bj, si2), 0))
+                    if nosite(tg2) == nosite(tgt) and line_end(v2):
+                        sys_ok = True
+            ctx.check(sys_ok, P + "/hull", (kind, "system-range"), b.where(bi, si), "the merged module's system range is extended to the merged line's end (system_mapping_info.end_address <- line.end)",
+                      "the %s merge extends `size` but not system_mapping_info.end_address: the module's kernel-reported range stops before the merged part (pointer/IP tests against it miss that part)" % kind)
         # after the merge the iteration continues without pushing
         pushes = [x for x, t in b.calls(lambda c: c.short == "std::vec::Vec::push") if x in loops[h]]
         w = witness_path(b, bi, set(pushes), removed={h})
-        ctx.check(w is None or w == [bi], "C13/one-outcome", (kind, "no-push-after-merge"), b.where(bi, si), "a merged line is not also pushed", "a merged line can also be pushed as a new mapping")
+        ctx.check(w is None or w == [bi], P + "/one-outcome", (kind, "no-push-after-merge"), b.where(bi, si), "a merged line is not also pushed", "a merged line can also be pushed as a new mapping")
         if kind == "fold":
             pops = [x for x, t in b.calls(lambda c: c.short == "std::vec::Vec::pop")]
             nxt_h = must_pass(b, bi, {h}, set(pops))
             only = all(witness_path(b, bi, {p}) is not None for p in pops) and len(pops) == 1
-            ctx.check(nxt_h is None and only, "C13/hull", ("fold", "pop-middle-once"), b.where(bi, si), "the fold removes the middle (empty-page) element exactly once", "the fold does not pop the middle element exactly once")
+            ctx.check(nxt_h is None and only, P + "/hull", ("fold", "pop-middle-once"), b.where(bi, si), "the fold removes the middle (empty-page) element exactly once", "the fold does not pop the middle element exactly once")
     for k in ("same-name", "reserved-gap", "fold"):
         ctx.check(kinds_seen.get(k, 0) == 1, R, ("kinds", k), b.where(h), "exactly one %s merge site" % k, "%d %s merge sites" % (kinds_seen.get(k, 0), k), nontrivial=False)
 
